@@ -132,7 +132,13 @@ func (l *Lin) IsConst() bool { return len(l.T) == 0 }
 func (l *Lin) Key() string {
 	var sb strings.Builder
 	sb.WriteString(strconv.FormatUint(l.C, 16))
-	for _, t := range l.T {
+	// canonical order: by atom key, not by creation order
+	ts := l.T
+	if len(ts) > 1 {
+		ts = append([]LinTerm(nil), l.T...)
+		sort.Slice(ts, func(i, j int) bool { return ts[i].A.Key < ts[j].A.Key })
+	}
+	for _, t := range ts {
 		sb.WriteByte('+')
 		if t.K != 1 {
 			// print small negative coefficients as such for readability
